@@ -47,7 +47,8 @@ STEP_MIN = [0, 1, 59, 60, 61, 125]
 JOURNEYS = [list(x) for n in (1, 2, 3) for x in itertools.product(STEP_MIN, repeat=n)]          # 258
 PLACES = ["first", "last", "both", "twice"]
 RD = {"0.5s": (0.5, "second"), "1s": (1, "second"), "30min": (30, "minute"), "60min": (60, "minute"),
-      "61min": (61, "minute"), "90min": (90, "minute"), "120min": (120, "minute"), "150min": (150, "minute")}
+      "61min": (61, "minute"), "90min": (90, "minute"), "120min": (120, "minute"), "150min": (150, "minute"),
+      "185min": (185, "minute"), "250min": (250, "minute")}      # events lasting 3 and 4 full hours + a rest
 RDS = list(RD)
 GAPS = ["none", "overlap", "disjoint"]
 FULL_PRODUCT = len(SERIES) * len(JOURNEYS) * len(PLACES) * len(RDS) * len(GAPS)
@@ -458,9 +459,10 @@ def run_task(task):
 REP_SERIES = [{"starts": [1], "start": WORD_START}, {"starts": [0, 3], "start": WORD_START},
               {"starts": [1, 0, 3], "start": WORD_START}, {"starts": [3, 1, 0, 1], "start": WORD_START}, LONG1]
 # (journey, placement, request duration) combinations against which EVERY start series and gap is run
-EDGE_COMBOS = [([59, 61], "both", "90min"), ([125], "twice", "0.5s"), ([60, 0, 1], "twice", "150min"),
-               ([0], "first", "60min"), ([1, 125, 59], "both", "61min")]
-EDGE_JOURNEYS = [[0], [59, 61], [60, 0, 1], [1, 125, 59]]
+# ([1, 125, 59] lasts 185 min: a 3-step journey longer than 3 hours, here with a request longer than 3 hours)
+EDGE_COMBOS = [([59, 61], "both", "90min"), ([125], "twice", "0.5s"), ([60, 0, 1], "twice", "250min"),
+               ([0], "first", "60min"), ([1, 125, 59], "both", "185min")]
+EDGE_JOURNEYS = [[0], [59, 61], [1, 125, 59]]
 
 
 def cfg(series, steps, place, rd, gap):
@@ -485,10 +487,10 @@ def enumerate_space(tier):
         for ji, steps in enumerate([j for j in JOURNEYS if len(j) == 3]):
             for pi, place in enumerate(PLACES):
                 for r in range(2):
-                    rd = RDS[(ji + pi * 2 + r * 4 + ji // 8) % 8]
+                    rd = RDS[(ji + pi * 2 + r * 5 + ji // 10) % len(RDS)]
                     b.append(cfg(REP_SERIES[k % len(REP_SERIES)], steps, place, rd, GAPS[(k // 5) % 3]))
                     k += 1
-        slices.append(["B: all 3-step journeys x all placements x 2 request durations each (cycling over all 8)",
+        slices.append(["B: all 3-step journeys (up to 375 min) x all placements x 2 request durations each (cycling over all 10)",
                        len(b)])
         c = [cfg(s, steps, place, rd, gap) for s in SERIES for gap in GAPS for steps, place, rd in EDGE_COMBOS]
         slices.append(["C: all 122 start series x all gaps x 5 fixed (journey, placement, request duration) combos",
@@ -506,8 +508,8 @@ def enumerate_space(tier):
                        "all 3 gaps + the 9-hour series with one gap, cycling)", len(a)])
         c = [cfg(s, steps, place, rd, gap) for s in SERIES for gap in GAPS for rd in RDS for place in PLACES
              for steps in EDGE_JOURNEYS]
-        slices.append(["C: all 122 start series x all gaps x all request durations x all placements x 4 journeys "
-                       "([0], [59,61], [60,0,1], [1,125,59])", len(c)])
+        slices.append(["C: all 122 start series x all gaps x all request durations x all placements x 3 journeys "
+                       "([0], [59,61], [1,125,59])", len(c)])
         out = a + c
     seen, uniq = set(), []
     for x in out:
@@ -579,9 +581,9 @@ def main(tier):
            "bounds": "start series: all words of length 1..4 over {0,1,3} (120) + a 9-hour and a 30-hour series; "
                      "journeys: 1-3 steps with durations in {0,1,59,60,61,125} min (258); placement of the job in "
                      "{first, last, both, twice in one step}; request duration in {0.5 s, 1 s, 30, 60, 61, 90, 120, "
-                     "150 min}; second pattern in {none, overlapping window on the same journey, disjoint window on "
+                     "150, 185, 250 min}; second pattern in {none, overlapping window on the same journey, disjoint window on "
                      "its own journey}; all in UTC. The tier enumerates exactly the slices listed under 'slices' "
-                     "(a stated sub-product of the 3.02 M full cartesian product, which does not fit the time budget); "
+                     "(a stated sub-product of the 3.78 M full cartesian product, which does not fit the time budget); "
                      "'exhaustive' refers to those slices.",
            "explanation": "every model is built with the real library (System construction computes everything) and "
                           "every per-pattern entry, across-pattern sum, journeys in parallel, device energy and "
